@@ -18,6 +18,10 @@ def run(repo, run, tier):
     protocol(repo, run)
     balance_rule(repo, run, "C09.3", want="terminal")
     removal_index(repo, run, "C09.4")
+    # 'the terminal event that stopped the run is reported': its record must not be suppressed by the duplicate filter reading another event's entry
+    from .c07 import sentinel
+    from ..imodel import IntegrateModel
+    sentinel(repo, run, IntegrateModel(repo), rule_id="C09.5")
 
 
 # ------------------------------------------------------------------------------------------------
